@@ -962,6 +962,14 @@ class Interp:
             if v is None and isinstance(node, ast.BinOp) and isinstance(node.op, ast.Add) and len(vals) == 2 \
                     and any(isinstance(x, StrCat) for x in vals) and all(as_strcat(x) is not None for x in vals):
                 v = StrCat([as_strcat(vals[0]), as_strcat(vals[1])])
+            if v is None and isinstance(node, ast.BinOp) and isinstance(node.op, ast.Add) and len(vals) == 2 \
+                    and getattr(self.hooks, 'symbolic_strings', False) \
+                    and any(isinstance(x, K) and isinstance(x.v, str) for x in vals) \
+                    and any(isinstance(x, Sym) for x in vals):
+                # opt-in: an unknown value concatenated with a constant string is a string
+                v = StrCat([x if isinstance(x, (K, StrCat)) else x for x in vals])
+            if v is None and isinstance(node, ast.Subscript) and len(vals) >= 1 and isinstance(vals[0], StrCat):
+                v = self._strcat_subscript(node, vals[0])
             if v is None and isinstance(node, ast.JoinedStr) and any(isinstance(x, StrCat) for x in vals) \
                     and all(isinstance(ch, ast.Constant) or (isinstance(ch, ast.FormattedValue) and ch.conversion == -1
                                                              and ch.format_spec is None) for ch in node.values):
@@ -993,6 +1001,39 @@ class Interp:
                     v.truth, v.nullness = True, False
             out.append(('val', v, s))
         return out
+
+    @staticmethod
+    def _strcat_subscript(node: ast.Subscript, sc: 'StrCat'):
+        """s[-1], s[0], s[:-1], s[1:] of a text that ends / starts with a known character"""
+        sl = node.slice
+
+        def const_int(n):
+            if isinstance(n, ast.Constant) and isinstance(n.value, int):
+                return n.value
+            if isinstance(n, ast.UnaryOp) and isinstance(n.op, ast.USub) and isinstance(n.operand, ast.Constant) \
+                    and isinstance(n.operand.value, int):
+                return -n.operand.value
+            return None
+
+        if not sc.parts:
+            return None
+        first, last = sc.parts[0], sc.parts[-1]
+        if not isinstance(sl, ast.Slice):
+            i = const_int(sl)
+            if i == -1 and isinstance(last, K):
+                return K(last.v[-1])
+            if i == 0 and isinstance(first, K):
+                return K(first.v[0])
+            return None
+        if sl.step is not None:
+            return None
+        lo = const_int(sl.lower) if sl.lower is not None else None
+        hi = const_int(sl.upper) if sl.upper is not None else None
+        if sl.lower is None and hi == -1 and isinstance(last, K):
+            return StrCat(sc.parts[:-1] + [K(last.v[:-1])])
+        if sl.upper is None and lo == 1 and isinstance(first, K):
+            return StrCat([K(first.v[1:])] + sc.parts[1:])
+        return None
 
     def _joined_strcat(self, node: ast.JoinedStr, st: State):
         """f'..{x}..' whose placeholders are plain (no conversion / format spec) and symbolic strings"""
@@ -1421,8 +1462,9 @@ class Interp:
             sep = cv.origin[1].v
         if sep is not None and len(args) == 1:
             items = self.concrete_items(args[0])
-            if items is not None and any(isinstance(x, StrCat) for x in items) \
-                    and all(as_strcat(x) is not None for x in items):
+            if items is not None and not isinstance(args[0], K) and all(as_strcat(x) is not None for x in items):
+                if not any(isinstance(x, StrCat) for x in items):
+                    return [('val', K(sep.join(x.v for x in items)), st)]
                 parts = []
                 for i, x in enumerate(items):
                     if i:
